@@ -120,7 +120,7 @@ BadFrame(kind) ==
     [] kind = "afterclose" -> Fr(1, TRUE, "1", 7, 0, "ascii", kind)
 
 GenBad == /\ phase = "gen" /\ Len(stream) < MaxFrames
-          /\ \E kind \in BadKinds :
+          /\ \E kind \in BadKinds \ {"flood"} :
                /\ (kind = "contnostart") => ~gopen /\ ~gend
                /\ (kind = "startopen") => gopen /\ ~gend
                /\ (kind = "afterclose") => gend /\ stream # <<>> /\ stream[Len(stream)].op = 8 /\ stream[Len(stream)].kind = "ok"
@@ -130,10 +130,17 @@ GenBad == /\ phase = "gen" /\ Len(stream) < MaxFrames
           /\ UNCHANGED <<gopen, gkind, phase, ep>> /\ UNCHANGED rxVars
 
 \* opaque bytes after an invalid frame: what a peer that wants the endpoint to buffer for ever keeps sending
-GenJunk == /\ phase = "gen" /\ JunkLen > 0 /\ stream # <<>> /\ stream[Len(stream)].kind \notin {"ok", "junk"}
+GenJunk == /\ phase = "gen" /\ JunkLen > 0 /\ stream # <<>> /\ stream[Len(stream)].kind \notin {"ok", "junk", "flood"}
            /\ stream' = Append(stream, [op |-> -1, fin |-> FALSE, lc |-> "junk", len |-> JunkLen, enc |-> 7, rsv |-> 0,
                                          pc |-> "junk", kind |-> "junk", h |-> 0, bl |-> 1])
            /\ UNCHANGED <<gopen, gkind, gend, phase, ep>> /\ UNCHANGED rxVars
+
+\* a flood of valid continuation frames (not final, 1000 bytes each): a fragmented message that never ends
+GenFlood == /\ phase = "gen" /\ JunkLen > 0 /\ "flood" \in BadKinds /\ ~gend /\ Len(stream) < MaxFrames
+            /\ stream' = Append(stream, [op |-> -2, fin |-> FALSE, lc |-> "flood", len |-> JunkLen, enc |-> 16, rsv |-> 0,
+                                          pc |-> "flood", kind |-> "flood", h |-> 0, bl |-> 1])
+            /\ gend' = TRUE
+            /\ UNCHANGED <<gopen, gkind, phase, ep>> /\ UNCHANGED rxVars
 
 Seal == /\ phase = "gen" /\ stream # <<>>
         /\ \E e \in Eps : ep' = e
@@ -142,7 +149,7 @@ Seal == /\ phase = "gen" /\ stream # <<>>
 
 (* ------------------------------------------------------------------------------------------- geometry ---- *)
 Masked == ep = "s"
-IsJunk(f) == f.op = -1
+IsJunk(f) == f.op < 0                      \* opaque bytes (-1) or a flood of continuation frames (-2): no structure of their own
 Hdr(f) == IF IsJunk(f) THEN 0 ELSE HdrLen(f.enc, Masked)
 Body(f) == IF Giant(f.lc) THEN 0 ELSE f.len              \* payload bytes really present
 Size(f) == Hdr(f) + Body(f)
@@ -199,11 +206,20 @@ InParse == phase = "feed" /\ pc = "parse" /\ ~stalled
 \* nothing left in the buffer, or everything of the stream consumed
 ParseDrained == InParse /\ (Avail = 0 \/ ~More) /\ Idle
 \* junk reached while the session is alive: junk is 'a' bytes = FIN clear, RSV set: a reserved-bits error
-ParseJunk == /\ InParse /\ More /\ Avail > 0 /\ IsJunk(Cur)
+ParseJunk == /\ InParse /\ More /\ Avail > 0 /\ Cur.op = -1
              /\ IF Dev_RsvSwallows THEN /\ lost' = TRUE /\ cons' = fedp /\ pc' = "idle"
                                         /\ UNCHANGED <<phase, ep, fedp, nf, segs, frag, delivered, outs, gone, closeSent, thrown, stalled>>
                                         /\ UNCHANGED genVars
                 ELSE IF Avail < 2 THEN Idle ELSE FailWith(1002)
+
+\* the flood: every read holds several continuation frames; they are appended to the fragment buffer (also when no
+\* message was started: the code accumulates them all the same) until the size check refuses the message
+ParseFlood == /\ InParse /\ More /\ Avail > 0 /\ Cur.op = -2
+              /\ IF Dev_OversizeKeepsSession
+                 THEN /\ frag' = [frag EXCEPT !.n = @ + Avail] /\ cons' = fedp /\ pc' = "idle"
+                      /\ outs' = Append(outs, Out(8, 2, 0, 1009)) /\ closeSent' = TRUE
+                      /\ UNCHANGED <<phase, ep, fedp, nf, segs, delivered, gone, thrown, stalled, lost>> /\ UNCHANGED genVars
+                 ELSE FailWith(1009)
 
 InFrame == InParse /\ More /\ Avail > 0 /\ ~IsJunk(Cur)
 
@@ -295,10 +311,10 @@ HandleUnknown == /\ InHandle /\ ~IsKnown(Cur.op)
 \* a stalled parser never makes progress again: every later read is appended and handed back
 ParseStalled == /\ phase = "feed" /\ pc = "parse" /\ stalled /\ Idle
 
-Rx == \/ Feed \/ ParseDrained \/ ParseJunk \/ ParseNeedBase \/ ParseRsv \/ ParseCtlViolation \/ ParseNeedExt \/ ParseTooLarge
+Rx == \/ Feed \/ ParseDrained \/ ParseJunk \/ ParseFlood \/ ParseNeedBase \/ ParseRsv \/ ParseCtlViolation \/ ParseNeedExt \/ ParseTooLarge
       \/ ParseNeedMask \/ ParseNeedPayload \/ ParseOverflowThrows \/ ParseFrame \/ ParseStalled
       \/ HandleStart \/ HandleCont \/ HandlePing \/ HandlePong \/ HandleClose \/ HandleUnknown
-Gen == GenStart \/ GenCont \/ GenCtl \/ GenClose \/ GenBad \/ GenJunk \/ Seal
+Gen == GenStart \/ GenCont \/ GenCtl \/ GenClose \/ GenBad \/ GenJunk \/ GenFlood \/ Seal
 Next == Gen \/ Rx
 Spec == Init /\ [][Next]_vars
 
